@@ -202,7 +202,7 @@ var weakNames = []string{
 	"aesctrhmac-aes24", "aesctrhmac-hmackey8", "aesctrhmac-tag8",
 	"aescmac-key24", "aescmacprf-key24", "aessiv-key48", "aesgcmsiv-key24",
 	"hmacprf-key8", "hkdfprf-key16", "hkdfprf-key31",
-	"rsapkcs1-pub-n1024", "rsapkcs1-pub-e3", "rsapkcs1-pub-e65539", "rsapkcs1-priv-n1024", "rsapkcs1-priv-e3",
+	"rsapkcs1-pub-n1024", "rsapkcs1-pub-e3", "rsapkcs1-pub-e65539", "rsapkcs1-priv-n1024", "rsapkcs1-priv-e3", "rsapkcs1-pub-e2p64", "rsapkcs1-priv-e2p64", "rsapss-pub-e2p64", "jwtrs256-pub-e2p64",
 	"rsapss-pub-n1024", "rsapss-pub-e3", "rsapss-priv-n1024", "rsapss-priv-e65539",
 	"jwtrs256-pub-n1024", "jwtrs256-priv-e3", "jwtps256-pub-e3", "jwtps256-priv-n1024",
 	"ecdsa-p384-sha256-pub", "ecdsa-p384-sha256-priv", "ecdsa-p521-sha256-pub", "ecdsa-p521-sha384-priv",
@@ -274,9 +274,13 @@ func (w *world) weak(name string) weakKey {
 		n := map[string]int{"hkdfprf-key16": 16, "hkdfprf-key31": 31}[name]
 		k.rule, k.class, k.sibling = ruleHKDFKey, "prf", "prf/hkdfprf/k32-SHA256-nosalt/NONE"
 		k.data = sym("HkdfPrfKey", &hkdfprfpb.HkdfPrfKey{Params: &hkdfprfpb.HkdfPrfParams{Hash: commonpb.HashType_SHA256}, KeyValue: rnd(n)})
-	case "rsapkcs1-pub-n1024", "rsapkcs1-pub-e3", "rsapkcs1-pub-e65539", "rsapkcs1-priv-n1024", "rsapkcs1-priv-e3", "rsapkcs1-priv-unbalanced":
+	case "rsapkcs1-pub-n1024", "rsapkcs1-pub-e3", "rsapkcs1-pub-e65539", "rsapkcs1-priv-n1024", "rsapkcs1-priv-e3", "rsapkcs1-priv-unbalanced", "rsapkcs1-pub-e2p64", "rsapkcs1-priv-e2p64":
 		var r rsaParts
 		switch name {
+		case "rsapkcs1-pub-e2p64", "rsapkcs1-priv-e2p64":
+			// the stored exponent is 2^64 + 65537 (not 65537); everything else belongs to a sound e = 65537 key
+			r, k.rule = rsa2048unbalanced.parts(65537), ruleRSAExp
+			r.e = exp2p64()
 		case "rsapkcs1-priv-unbalanced":
 			r, k.rule = rsa2048unbalanced.parts(65537), ""
 		case "rsapkcs1-pub-n1024", "rsapkcs1-priv-n1024":
@@ -295,6 +299,8 @@ func (w *world) weak(name string) weakKey {
 				k.sign = rsaSigner(rsa1024.goKey(65537), false)
 			case "rsapkcs1-pub-e65539":
 				k.sign = rsaSigner(rsa2048e65539.goKey(65539), false)
+			case "rsapkcs1-pub-e2p64":
+				k.sign = rsaSigner(rsa2048unbalanced.goKey(65537), false)
 			default:
 				k.sign = rsaSigner(rsa2048e3.goKey(3), false)
 			}
@@ -302,9 +308,12 @@ func (w *world) weak(name string) weakKey {
 			k.data = priv("RsaSsaPkcs1PrivateKey", &rsapkcs1pb.RsaSsaPkcs1PrivateKey{PublicKey: pk, D: r.d, P: r.p, Q: r.q, Dp: r.dp, Dq: r.dq, Crt: r.crt})
 			k.sibling = "signature/ed25519/k32/TINK"
 		}
-	case "rsapss-pub-n1024", "rsapss-pub-e3", "rsapss-priv-n1024", "rsapss-priv-e65539", "rsapss-priv-unbalanced":
+	case "rsapss-pub-n1024", "rsapss-pub-e3", "rsapss-priv-n1024", "rsapss-priv-e65539", "rsapss-priv-unbalanced", "rsapss-pub-e2p64":
 		var r rsaParts
 		switch name {
+		case "rsapss-pub-e2p64":
+			r, k.rule = rsa2048unbalanced.parts(65537), ruleRSAExp
+			r.e = exp2p64()
 		case "rsapss-priv-unbalanced":
 			r, k.rule = rsa2048unbalanced.parts(65537), ""
 		case "rsapss-pub-n1024", "rsapss-priv-n1024":
@@ -320,6 +329,8 @@ func (w *world) weak(name string) weakKey {
 			k.data = pub("RsaSsaPssPublicKey", pk)
 			if name == "rsapss-pub-n1024" {
 				k.sign = rsaSigner(rsa1024.goKey(65537), true)
+			} else if name == "rsapss-pub-e2p64" {
+				k.sign = rsaSigner(rsa2048unbalanced.goKey(65537), true)
 			} else {
 				k.sign = rsaSigner(rsa2048e3.goKey(3), true)
 			}
@@ -327,9 +338,14 @@ func (w *world) weak(name string) weakKey {
 			k.data = priv("RsaSsaPssPrivateKey", &rsapsspb.RsaSsaPssPrivateKey{PublicKey: pk, D: r.d, P: r.p, Q: r.q, Dp: r.dp, Dq: r.dq, Crt: r.crt})
 			k.sibling = "signature/ed25519/k32/TINK"
 		}
-	case "jwtrs256-pub-n1024", "jwtrs256-priv-e3":
+	case "jwtrs256-pub-n1024", "jwtrs256-priv-e3", "jwtrs256-pub-e2p64":
 		k.class = "jwtsig"
-		if name == "jwtrs256-pub-n1024" {
+		if name == "jwtrs256-pub-e2p64" {
+			r := rsa2048unbalanced.parts(65537)
+			k.rule = ruleRSAExp
+			k.data = pub("JwtRsaSsaPkcs1PublicKey", &jwtrsapb.JwtRsaSsaPkcs1PublicKey{Algorithm: jwtrsapb.JwtRsaSsaPkcs1Algorithm_RS256, N: r.n, E: exp2p64()})
+			k.sign, k.jwtAlg = rsaSigner(rsa2048unbalanced.goKey(65537), false), "RS256"
+		} else if name == "jwtrs256-pub-n1024" {
 			r := rsa1024.parts(65537)
 			k.rule = ruleRSAMod
 			k.data = pub("JwtRsaSsaPkcs1PublicKey", &jwtrsapb.JwtRsaSsaPkcs1PublicKey{Algorithm: jwtrsapb.JwtRsaSsaPkcs1Algorithm_RS256, N: r.n, E: r.e})
@@ -557,4 +573,9 @@ func setCustomKid(typeURL string, value []byte, kid string) ([]byte, bool) {
 		return nil, false
 	}
 	return out, true
+}
+
+// exp2p64 is the big-endian encoding of 2^64 + 65537: an exponent other than 65537 whose low 64 bits are 65537.
+func exp2p64() []byte {
+	return new(big.Int).Add(new(big.Int).Lsh(big.NewInt(1), 64), big.NewInt(65537)).Bytes()
 }
